@@ -280,7 +280,7 @@ func normalize(errs []error, anns map[string]bool) []error {
 }
 
 func runC12(r *kit.Run) {
-	n := int64(r.Scale(50000, 3000000))
+	n := int64(r.Scale(50000, 8000000))
 	if r.Build != "plain" {
 		n /= 20
 	}
